@@ -464,7 +464,7 @@ Theorem C07_tail_rejects_unrecognised : forall line,
 Proof. exact tail_rejects_unrecognised. Qed.
 Print Assumptions C07_tail_rejects_unrecognised.
 
-(* non-vacuity, both sides: `pass`, `global x`, `global a ,b_2` skipped; `globalx`, `global`, `global x y`, `del x`,
+(* non-vacuity, both sides: `pass`, `global x`, `global a ,b_2` skipped; `globalx`, `global`, `global x; y = 5`, `del x`,
    `pass x` and the header `if(x>1):` of finding F-C07-keyword-paren rejected (no longer dropped) *)
 Example C07_tail_examples :
   tail_class_of tail_benign_eq tail_benign_rx tail_rejects false s_pass = TBenign /\
@@ -472,7 +472,7 @@ Example C07_tail_examples :
   tail_class_of tail_benign_eq tail_benign_rx tail_rejects false [103;108;111;98;97;108;32;97;32;44;98;95;50] = TBenign /\
   tail_class_of tail_benign_eq tail_benign_rx tail_rejects false [103;108;111;98;97;108;120] = TReject /\
   tail_class_of tail_benign_eq tail_benign_rx tail_rejects false [103;108;111;98;97;108] = TReject /\
-  tail_class_of tail_benign_eq tail_benign_rx tail_rejects false [103;108;111;98;97;108;32;120;32;121] = TReject /\
+  tail_class_of tail_benign_eq tail_benign_rx tail_rejects false [103;108;111;98;97;108;32;120;59;32;121;32;61;32;53] = TReject /\
   tail_class_of tail_benign_eq tail_benign_rx tail_rejects false [100;101;108;32;120] = TReject /\
   tail_class_of tail_benign_eq tail_benign_rx tail_rejects false [112;97;115;115;32;120] = TReject /\
   tail_class_of tail_benign_eq tail_benign_rx tail_rejects false s_if_paren = TReject.
